@@ -342,6 +342,8 @@ fn uint_family<const N: usize>(cx: &mut Cx, extra: usize) {
         cx.call(mk("Uint::to_nz->Option", "nz", bits, x, "none"), || match Option::<NonZero<Uint<N>>>::from(a.to_nz()) { Some(n) => out(&w(&n.get())), None => O::none() });
         cx.call(mk("Uint::to_nz->CtOption", "nz", bits, x, "none"), || match Option::<NonZero<Uint<N>>>::from(CtOption::from(a.to_nz())) { Some(n) => out(&w(&n.get())), None => O::none() });
         cx.call(mk("Uint::to_nz.unwrap", "nz", bits, x, "panic"), || out(&w(&a.to_nz().unwrap().get())));
+        cx.call(mk("Uint::to_nz.unwrap.deref", "nz", bits, x, "panic"), || { let n = a.to_nz().unwrap(); let d: &Uint<N> = &n; out(&w(d)) });
+        cx.call(mk("Uint::to_nz.unwrap.as_ref", "nz", bits, x, "panic"), || { let n = a.to_nz().unwrap(); out(&w(n.as_ref())) });
         cx.call(mk("Uint::to_nz.expect", "nz", bits, x, "panic"), || out(&w(&a.to_nz().expect("zero").get())));
         cx.call(mk("NonZero<Uint>::new_unwrap", "nz", bits, x, "panic"), || out(&w(&NonZero::<Uint<N>>::new_unwrap(a).get())));
         cx.call(ev("mapobs", "NonZero::new<Uint>.map", "nz", bits).n("x", x).n("dflt", &dnz), || {
@@ -354,6 +356,8 @@ fn uint_family<const N: usize>(cx: &mut Cx, extra: usize) {
         cx.call(mk("Uint::to_odd->Option", "odd", bits, x, "none"), || match Option::<Odd<Uint<N>>>::from(a.to_odd()) { Some(n) => out(&w(&n.get())), None => O::none() });
         cx.call(mk("Uint::to_odd->CtOption", "odd", bits, x, "none"), || match Option::<Odd<Uint<N>>>::from(CtOption::from(a.to_odd())) { Some(n) => out(&w(&n.get())), None => O::none() });
         cx.call(mk("Uint::to_odd.unwrap", "odd", bits, x, "panic"), || out(&w(&a.to_odd().unwrap().get())));
+        cx.call(mk("Uint::to_odd.unwrap.deref", "odd", bits, x, "panic"), || { let n = a.to_odd().unwrap(); let d: &Uint<N> = &n; out(&w(d)) });
+        cx.call(mk("Uint::to_odd.unwrap.as_nz_ref.deref", "odd", bits, x, "panic"), || { let n = a.to_odd().unwrap(); let d: &Uint<N> = n.as_nz_ref(); out(&w(d)) });
         cx.call(mk("Uint::to_odd.expect", "odd", bits, x, "panic"), || out(&w(&a.to_odd().expect("even").get())));
         cx.call(ev("mapobs", "Odd::new<Uint>.map", "odd", bits).n("x", x).n("dflt", &dodd), || {
             let mut seen = Uint::<N>::ZERO;
